@@ -7,11 +7,14 @@ theorem RouteInv.endDriver {s : St} (h : RouteInv s) (how : Drv) : RouteInv (end
   · rfl
   · intro p hp; simp [Conn.endDriver] at hp
   · intro p hp; simp [Conn.endDriver] at hp
+  · rfl
+  · rfl
 
 /-- only `ops` changes, tamely; everything the invariant looks at is otherwise the same -/
 theorem RouteInv.ops_only {s s' : St} (h : RouteInv s) (hops : Tame s.ops s'.ops) (hc : s'.chans = s.chans)
-    (hr : s'.resultmap = s.resultmap) (hsm : s'.searchmap = s.searchmap) : RouteInv s' :=
-  h.of_tame hops hc (by rw [hr]; exact fun _ hp => hp) (by rw [hsm]; exact fun _ hp => hp)
+    (hr : s'.resultmap = s.resultmap) (hsm : s'.searchmap = s.searchmap)
+    (hl : s'.srvLog = s.srvLog) (hp : s'.pos = s.pos) : RouteInv s' :=
+  h.of_tame hops hc (by rw [hr]; exact fun _ hp => hp) (by rw [hsm]; exact fun _ hp => hp) hl hp
 
 theorem RouteInv.alloc {s s' : St} {ob : Obs} (h : RouteInv s) (kind : Kind)
     (hs : step s (.alloc kind) = some (s', ob)) : RouteInv s' := by
@@ -76,14 +79,17 @@ theorem RouteInv.alloc {s s' : St} {ob : Obs} (h : RouteInv s) (kind : Kind)
           | zero => rw [hcc] at hc'; simp at hc'; subst hc'; exact ⟨List.getElem?_eq_none (by omega), rfl⟩
           | succ n => rw [hcc] at hc'; simp at hc'
       rcases hcase with hc | hn
-      · exact Or.inl ⟨ch', hc, rfl, fun it hit => Or.inl hit⟩
+      · exact Or.inl ⟨ch', hc, rfl, Or.inl rfl⟩
       · exact Or.inr hn
     · intro p hp; exact Or.inl hp
     · intro p hp; exact Or.inl hp
+    · exact List.prefix_refl _
+    · exact h.posLe
 
 theorem RouteInv.same {s s' : St} (h : RouteInv s) (ho : s'.ops = s.ops) (hc : s'.chans = s.chans)
-    (hr : s'.resultmap = s.resultmap) (hsm : s'.searchmap = s.searchmap) : RouteInv s' := by
-  apply h.ops_only _ hc hr hsm
+    (hr : s'.resultmap = s.resultmap) (hsm : s'.searchmap = s.searchmap)
+    (hl : s'.srvLog = s.srvLog) (hp : s'.pos = s.pos) : RouteInv s' := by
+  apply h.ops_only _ hc hr hsm hl hp
   rw [ho]; exact Tame.refl _
 
 theorem RouteInv.enqueue {s s' : St} {ob : Obs} (h : RouteInv s) (i : Nat) (tmo : Option Nat)
@@ -99,10 +105,10 @@ theorem RouteInv.enqueue {s s' : St} {ob : Obs} (h : RouteInv s) (i : Nat) (tmo 
     · split at hs
       · simp only [Option.some.injEq, Prod.mk.injEq] at hs
         rw [← hs.1]
-        exact h.ops_only (tame_set s.ops i o _ ho rfl (by intro f hf; cases hf)) rfl rfl rfl
+        exact h.ops_only (tame_set s.ops i o _ ho rfl (by intro f hf; cases hf)) rfl rfl rfl rfl rfl
       · simp only [Option.some.injEq, Prod.mk.injEq] at hs
         rw [← hs.1]
-        exact h.ops_only (tame_set s.ops i o _ ho rfl (fun f hf => hf)) rfl rfl rfl
+        exact h.ops_only (tame_set s.ops i o _ ho rfl (fun f hf => hf)) rfl rfl rfl rfl rfl
 
 theorem RouteInv.poll {s s' : St} {ob : Obs} (h : RouteInv s) (i : Nat)
     (hs : step s (.poll i) = some (s', ob)) : RouteInv s' := by
@@ -115,9 +121,9 @@ theorem RouteInv.poll {s s' : St} {ob : Obs} (h : RouteInv s) (i : Nat)
     split at hs
     · cases hs
     · have hset : ∀ r : Option Res, RouteInv { s with ops := s.ops.set i { o with res := r } } := fun r =>
-        h.ops_only (tame_set s.ops i o _ ho rfl (fun f hf => hf)) rfl rfl rfl
+        h.ops_only (tame_set s.ops i o _ ho rfl (fun f hf => hf)) rfl rfl rfl rfl rfl
       have hset2 : ∀ (r : Option Res) (q : List Nat), RouteInv { s with ops := s.ops.set i { o with res := r }, scrubQ := q } := fun r q =>
-        h.ops_only (tame_set s.ops i o _ ho rfl (fun f hf => hf)) rfl rfl rfl
+        h.ops_only (tame_set s.ops i o _ ho rfl (fun f hf => hf)) rfl rfl rfl rfl rfl
       split at hs
       all_goals (try (simp only [Option.some.injEq, Prod.mk.injEq] at hs; rw [← hs.1]; first | exact hset _ | exact h))
       split at hs
@@ -131,9 +137,12 @@ theorem RouteInv.poll {s s' : St} {ob : Obs} (h : RouteInv s) (i : Nat)
 /-- a channel's cursor / receiver flag changes, or an item valid for its operation is appended -/
 theorem RouteInv.chan_update {s s' : St} (h : RouteInv s) (c : Nat) (ch ch' : Chan) (hc : s.chans[c]? = some ch)
     (hidx : ch'.opIdx = ch.opIdx)
-    (hitems : ∀ it ∈ ch'.items, it ∈ ch.items ∨ ∃ o : Op, s.ops[ch.opIdx]? = some o ∧ (itemFrame it).id = (o.id : Int))
+    (hitems : ch'.items = ch.items ∨ ∃ it : Item, ch'.items = ch.items ++ [it] ∧
+          (∃ o : Op, s.ops[ch.opIdx]? = some o ∧ (itemFrame it).id = (o.id : Int)) ∧
+          s'.srvLog.take s'.pos = s.srvLog.take s.pos ++ [itemFrame it])
     (hops : Tame s.ops s'.ops) (hcs : s'.chans = s.chans.set c ch')
-    (hrm : ∀ p ∈ s'.resultmap, p ∈ s.resultmap) (hsm : ∀ p ∈ s'.searchmap, p ∈ s.searchmap) : RouteInv s' := by
+    (hrm : ∀ p ∈ s'.resultmap, p ∈ s.resultmap) (hsm : ∀ p ∈ s'.searchmap, p ∈ s.searchmap)
+    (hlog : (s.srvLog.take s.pos) <+: (s'.srvLog.take s'.pos)) (hpos : s'.pos ≤ s'.srvLog.length) : RouteInv s' := by
   have hclt : c < s.chans.length := (List.getElem?_eq_some_iff.mp hc).1
   apply h.transfer hops.sameSig
   · intro j o' ho'
@@ -158,9 +167,11 @@ theorem RouteInv.chan_update {s s' : St} (h : RouteInv s) (c : Nat) (ch ch' : Ch
       simp only [hclt, Option.some.injEq] at hd'
       subst hd'
       exact Or.inl ⟨ch, hc, hidx, hitems⟩
-    · exact Or.inl ⟨chd', hd', rfl, fun it hit => Or.inl hit⟩
+    · exact Or.inl ⟨chd', hd', rfl, Or.inl rfl⟩
   · intro p hp; exact Or.inl (hrm p hp)
   · intro p hp; exact Or.inl (hsm p hp)
+  · exact hlog
+  · exact hpos
 
 theorem RouteInv.recv {s s' : St} {ob : Obs} (h : RouteInv s) (c : Nat) (dl : Option Nat)
     (hs : step s (.recv c dl) = some (s', ob)) : RouteInv s' := by
@@ -175,8 +186,8 @@ theorem RouteInv.recv {s s' : St} {ob : Obs} (h : RouteInv s) (c : Nat) (dl : Op
     · split at hs
       · simp only [Option.some.injEq, Prod.mk.injEq] at hs
         rw [← hs.1]
-        exact h.chan_update c ch { ch with taken := ch.taken + 1 } hc rfl (fun it hit => Or.inl hit) (Tame.refl _) rfl
-          (fun _ hp => hp) (fun _ hp => hp)
+        exact h.chan_update c ch { ch with taken := ch.taken + 1 } hc rfl (Or.inl rfl) (Tame.refl _) rfl
+          (fun _ hp => hp) (fun _ hp => hp) (List.prefix_refl _) h.posLe
       · split at hs
         · simp only [Option.some.injEq, Prod.mk.injEq] at hs; rw [← hs.1]; exact h
         · split at hs
@@ -184,7 +195,7 @@ theorem RouteInv.recv {s s' : St} {ob : Obs} (h : RouteInv s) (c : Nat) (dl : Op
             · split at hs
               · split at hs
                 · simp only [Option.some.injEq, Prod.mk.injEq] at hs; rw [← hs.1]
-                  exact h.same rfl rfl rfl rfl
+                  exact h.same rfl rfl rfl rfl rfl rfl
                 · simp only [Option.some.injEq, Prod.mk.injEq] at hs; rw [← hs.1]; exact h
               · cases hs
             · simp only [Option.some.injEq, Prod.mk.injEq] at hs; rw [← hs.1]; exact h
@@ -199,8 +210,8 @@ theorem RouteInv.dropRx {s s' : St} {ob : Obs} (h : RouteInv s) (c : Nat)
     rw [hc] at hs
     simp only [Option.some.injEq, Prod.mk.injEq] at hs
     rw [← hs.1]
-    exact h.chan_update c ch { ch with rxAlive := false } hc rfl (fun it hit => Or.inl hit) (Tame.refl _) rfl
-      (fun _ hp => hp) (fun _ hp => hp)
+    exact h.chan_update c ch { ch with rxAlive := false } hc rfl (Or.inl rfl) (Tame.refl _) rfl
+      (fun _ hp => hp) (fun _ hp => hp) (List.prefix_refl _) h.posLe
 
 theorem RouteInv.drvScrub {s s' : St} {ob : Obs} (h : RouteInv s)
     (hs : step s .drvScrub = some (s', ob)) : RouteInv s' := by
@@ -211,13 +222,14 @@ theorem RouteInv.drvScrub {s s' : St} {ob : Obs} (h : RouteInv s)
     · cases hs
     · simp only [Option.some.injEq, Prod.mk.injEq] at hs
       rw [← hs.1]
-      exact h.of_tame (tame_dropSenderOpt _ _) rfl (fun p hp => (mem_erase hp).1) (fun p hp => (mem_erase hp).1)
+      exact h.of_tame (tame_dropSenderOpt _ _) rfl (fun p hp => (mem_erase hp).1) (fun p hp => (mem_erase hp).1) rfl rfl
 
 /-- tame change of `ops`, channels untouched, maps changed by erasing and by inserting valid entries -/
 theorem RouteInv.of_tame' {s s' : St} (h : RouteInv s) (hops : Tame s.ops s'.ops) (hc : s'.chans = s.chans)
     (hrm : ∀ p ∈ s'.resultmap, p ∈ s.resultmap ∨ ∃ o : Op, s.ops[p.2]? = some o ∧ o.id = p.1)
     (hsm : ∀ p ∈ s'.searchmap, p ∈ s.searchmap ∨
-      ∃ (ch : Chan) (o : Op), s.chans[p.2]? = some ch ∧ s.ops[ch.opIdx]? = some o ∧ o.id = p.1) : RouteInv s' := by
+      ∃ (ch : Chan) (o : Op), s.chans[p.2]? = some ch ∧ s.ops[ch.opIdx]? = some o ∧ o.id = p.1)
+    (hl : s'.srvLog = s.srvLog) (hp : s'.pos = s.pos) : RouteInv s' := by
   apply h.transfer hops.sameSig
   · intro j o' ho'
     obtain ⟨o, ho, hs, _⟩ := hops.2 j o' ho'
@@ -228,9 +240,11 @@ theorem RouteInv.of_tame' {s s' : St} (h : RouteInv s) (hops : Tame s.ops s'.ops
   · intro c ch hch; rw [hc]; exact ⟨ch, hch, rfl⟩
   · intro c ch' hch'
     rw [hc] at hch'
-    exact Or.inl ⟨ch', hch', rfl, fun it hit => Or.inl hit⟩
+    exact Or.inl ⟨ch', hch', rfl, Or.inl rfl⟩
   · exact hrm
   · exact hsm
+  · rw [hl, hp]; exact List.prefix_refl _
+  · rw [hl, hp]; exact h.posLe
 
 theorem RouteInv.drvOp {s s' : St} {ob : Obs} (h : RouteInv s) (sendOk : Bool)
     (hs : step s (.drvOp sendOk) = some (s', ob)) : RouteInv s' := by
@@ -266,7 +280,7 @@ theorem RouteInv.drvOp {s s' : St} {ob : Obs} (h : RouteInv s) (sendOk : Bool)
         · -- skipped
           simp only [Option.some.injEq, Prod.mk.injEq] at hs
           rw [← hs.1]
-          refine h.of_tame (Tame.trans (t0 _ ?_ ?_) (tame_dropSender _ _)) rfl (fun _ hp => hp) (fun _ hp => hp)
+          refine h.of_tame (Tame.trans (t0 _ ?_ ?_) (tame_dropSender _ _)) rfl (fun _ hp => hp) (fun _ hp => hp) rfl rfl
           · rfl
           · exact fun f hf => hf
         · split at hs
@@ -281,6 +295,8 @@ theorem RouteInv.drvOp {s s' : St} {ob : Obs} (h : RouteInv s) (sendOk : Bool)
             · rfl
             · intro p hp; simp [Conn.endDriver] at hp
             · intro p hp; simp [Conn.endDriver] at hp
+            · rfl
+            · rfl
           · cases hk : o.kind with
             | single =>
               simp only [hk, Option.some.injEq, Prod.mk.injEq] at hs
@@ -295,6 +311,8 @@ theorem RouteInv.drvOp {s s' : St} {ob : Obs} (h : RouteInv s) (sendOk : Bool)
                 · exact Or.inr ⟨o, ho, rfl⟩
                 · exact Or.inl hin
               · intro p hp; exact Or.inl hp
+              · rfl
+              · rfl
             | search =>
               simp only [hk, Option.some.injEq, Prod.mk.injEq] at hs hsm1
               rw [← hs.1]
@@ -305,6 +323,8 @@ theorem RouteInv.drvOp {s s' : St} {ob : Obs} (h : RouteInv s) (sendOk : Bool)
               · rfl
               · intro p hp; exact Or.inl hp
               · intro p hp; exact hsm1 p hp
+              · rfl
+              · rfl
             | abandon t =>
               simp only [hk, Option.some.injEq, Prod.mk.injEq] at hs
               rw [← hs.1]
@@ -315,6 +335,8 @@ theorem RouteInv.drvOp {s s' : St} {ob : Obs} (h : RouteInv s) (sendOk : Bool)
               · rfl
               · intro p hp; exact (mem_erase hp).1
               · intro p hp; exact (mem_erase hp).1
+              · rfl
+              · rfl
             | unbind =>
               simp only [hk, Option.some.injEq, Prod.mk.injEq] at hs
               rw [← hs.1]
@@ -325,9 +347,31 @@ theorem RouteInv.drvOp {s s' : St} {ob : Obs} (h : RouteInv s) (sendOk : Bool)
               · rfl
               · intro p hp; exact hp
               · intro p hp; exact hp
+              · rfl
+              · rfl
 
-theorem RouteInv.routeSearch {s : St} (h : RouteInv s) (c : Nat) (f : Frame)
-    (hl : lookup s.searchmap f.id = some c) : RouteInv (routeSearch s c f) := by
+theorem take_succ_of_get {l : List Frame} {n : Nat} {f : Frame} (h : l[n]? = some f) :
+    l.take (n + 1) = l.take n ++ [f] := by
+  rw [List.take_succ, h]; rfl
+
+theorem RouteInv.endDriverP {s : St} (h : RouteInv s) (how : Drv) (f : Frame) (hf : s.srvLog[s.pos]? = some f) :
+    RouteInv (Conn.endDriver ({ s with pos := s.pos + 1 } : St) how) := by
+  have hlt : s.pos < s.srvLog.length := (List.getElem?_eq_some_iff.mp hf).1
+  apply h.of_tameP
+  · exact (tame_foldl_dropSender s.opQ s.ops).trans (tame_foldl_dropSender2 s.resultmap _)
+  · rfl
+  · intro p hp; simp [Conn.endDriver] at hp
+  · intro p hp; simp [Conn.endDriver] at hp
+  · show List.take s.pos s.srvLog <+: List.take (s.pos + 1) s.srvLog
+    rw [take_succ_of_get hf]; exact List.prefix_append _ _
+  · show s.pos + 1 ≤ s.srvLog.length
+    omega
+
+theorem RouteInv.routeSearch {s : St} (h : RouteInv s) (c : Nat) (f : Frame) (hf : s.srvLog[s.pos]? = some f)
+    (hl : lookup s.searchmap f.id = some c) : RouteInv (Conn.routeSearch ({ s with pos := s.pos + 1 } : St) c f) := by
+  have hlt : s.pos < s.srvLog.length := (List.getElem?_eq_some_iff.mp hf).1
+  have hpre : List.take s.pos s.srvLog <+: List.take (s.pos + 1) s.srvLog := by
+    rw [take_succ_of_get hf]; exact List.prefix_append _ _
   obtain ⟨n, hmem, hn⟩ := lookup_some hl
   obtain ⟨ch, o, hch, ho, hid⟩ := h.sm (n, c) hmem
   simp only at hch ho hid
@@ -337,43 +381,41 @@ theorem RouteInv.routeSearch {s : St} (h : RouteInv s) (c : Nat) (f : Frame)
   generalize hcl : (if f.op = 4 ∨ f.op = 25 ∨ f.op = 19 then some (Item.entry f, false)
       else if f.op = 5 then (if f.good then some (Item.done f, true) else none) else none) = cl
   cases cl with
-  | none => exact h.endDriver _
+  | none => exact h.endDriverP _ f hf
   | some pr =>
     obtain ⟨item, isDone⟩ := pr
-    have hitem : (itemFrame item).id = (o.id : Int) := by
-      have : itemFrame item = f := by
-        split at hcl
-        · cases hcl; rfl
+    have hif : itemFrame item = f := by
+      split at hcl
+      · cases hcl; rfl
+      · split at hcl
         · split at hcl
-          · split at hcl
-            · cases hcl; rfl
-            · cases hcl
+          · cases hcl; rfl
           · cases hcl
-      rw [this]; exact hfid
+        · cases hcl
     simp only [hch]
     have upd : ∀ (s' : St), Tame s.ops s'.ops →
         s'.chans = (if ch.rxAlive then modifyChan s.chans c fun ch => { ch with items := ch.items ++ [item] } else s.chans) →
-        (∀ p ∈ s'.resultmap, p ∈ s.resultmap) → (∀ p ∈ s'.searchmap, p ∈ s.searchmap) → RouteInv s' := by
-      intro s' hops hcs hrm hsm
+        (∀ p ∈ s'.resultmap, p ∈ s.resultmap) → (∀ p ∈ s'.searchmap, p ∈ s.searchmap) →
+        s'.srvLog = s.srvLog → s'.pos = s.pos + 1 → RouteInv s' := by
+      intro s' hops hcs hrm hsm hlg hps
+      have hlog : List.take s.pos s.srvLog <+: List.take s'.pos s'.srvLog := by rw [hlg, hps]; exact hpre
+      have hpos : s'.pos ≤ s'.srvLog.length := by rw [hlg, hps]; omega
       cases hal : ch.rxAlive with
       | false =>
         rw [hal] at hcs
-        exact h.of_tame hops (by simpa using hcs) hrm hsm
+        exact h.of_tameP hops (by simpa using hcs) hrm hsm hlog hpos
       | true =>
         rw [hal] at hcs
         simp only [if_true] at hcs
         have hset : modifyChan s.chans c (fun ch => { ch with items := ch.items ++ [item] }) =
             s.chans.set c { ch with items := ch.items ++ [item] } := by simp [modifyChan, hch]
         rw [hset] at hcs
-        refine h.chan_update c ch { ch with items := ch.items ++ [item] } hch rfl ?_ hops hcs hrm hsm
-        intro it hit
-        simp only [List.mem_append, List.mem_singleton] at hit
-        rcases hit with hit | rfl
-        · exact Or.inl hit
-        · exact Or.inr ⟨o, ho, hitem⟩
+        refine h.chan_update c ch { ch with items := ch.items ++ [item] } hch rfl ?_ hops hcs hrm hsm hlog hpos
+        refine Or.inr ⟨item, rfl, ⟨o, ho, by rw [hif]; exact hfid⟩, ?_⟩
+        rw [hlg, hps, hif]; exact take_succ_of_get hf
     split
-    · exact upd _ (Tame.refl _) rfl (fun _ hp => hp) (fun p hp => (mem_erase hp).1)
-    · exact upd _ (Tame.refl _) rfl (fun _ hp => hp) (fun _ hp => hp)
+    · exact upd _ (Tame.refl _) rfl (fun _ hp => hp) (fun p hp => (mem_erase hp).1) rfl rfl
+    · exact upd _ (Tame.refl _) rfl (fun _ hp => hp) (fun _ hp => hp) rfl rfl
 
 theorem RouteInv.drvResp {s s' : St} {ob : Obs} (h : RouteInv s)
     (hs : step s .drvResp = some (s', ob)) : RouteInv s' := by
@@ -391,13 +433,15 @@ theorem RouteInv.drvResp {s s' : St} {ob : Obs} (h : RouteInv s)
     | some f =>
       rw [hf] at hs
       simp only at hs
-      have h1 : RouteInv { s with pos := s.pos + 1 } := h.same rfl rfl rfl rfl
+      have hlt : s.pos < s.srvLog.length := (List.getElem?_eq_some_iff.mp hf).1
+      have hpre : List.take s.pos s.srvLog <+: List.take (s.pos + 1) s.srvLog := by
+        rw [take_succ_of_get hf]; exact List.prefix_append _ _
       cases hl : lookup s.searchmap f.id with
       | some c =>
         rw [hl] at hs
         simp only [Option.some.injEq, Prod.mk.injEq] at hs
         rw [← hs.1]
-        exact h1.routeSearch c f hl
+        exact h.routeSearch c f hf hl
       | none =>
         rw [hl] at hs
         simp only at hs
@@ -405,7 +449,9 @@ theorem RouteInv.drvResp {s s' : St} {ob : Obs} (h : RouteInv s)
         | none =>
           rw [hr] at hs
           simp only [Option.some.injEq, Prod.mk.injEq] at hs
-          rw [← hs.1]; exact h1
+          rw [← hs.1]
+          exact h.of_tameP (s' := { s with pos := s.pos + 1 }) (Tame.refl _) rfl (fun _ hp => hp) (fun _ hp => hp) hpre
+            (by show s.pos + 1 ≤ s.srvLog.length; omega)
         | some i =>
           rw [hr] at hs
           simp only [Option.some.injEq, Prod.mk.injEq] at hs
@@ -444,13 +490,26 @@ theorem RouteInv.drvResp {s s' : St} {ob : Obs} (h : RouteInv s)
                 right
                 have e : (if o.mail = Mail.empty then { o with mail := Mail.frame f } else o).id = o.id := by
                   split <;> rfl
-                rw [e, hid]; exact hn.symm
+                refine ⟨by rw [e, hid]; exact hn.symm, ?_⟩
+                show f ∈ List.take (s.pos + 1) s.srvLog
+                rw [take_succ_of_get hf]; simp
               · exact Or.inl ⟨o, ho, hm⟩
             · exact Or.inl ⟨o', ho', hm⟩
           · intro c ch hch; exact ⟨ch, hch, rfl⟩
-          · intro c ch' hch'; exact Or.inl ⟨ch', hch', rfl, fun it hit => Or.inl hit⟩
+          · intro c ch' hch'; exact Or.inl ⟨ch', hch', rfl, Or.inl rfl⟩
           · intro p hp; exact Or.inl (mem_erase hp).1
           · intro p hp; exact Or.inl hp
+          · exact hpre
+          · show s.pos + 1 ≤ s.srvLog.length; omega
+
+theorem RouteInv.srvSend {s : St} (h : RouteInv s) (f : Frame) : RouteInv ({ s with srvLog := s.srvLog ++ [f] } : St) := by
+  have e : List.take s.pos (s.srvLog ++ [f]) = List.take s.pos s.srvLog := List.take_append_of_le_length h.posLe
+  apply h.of_tameP (s' := { s with srvLog := s.srvLog ++ [f] }) (Tame.refl _) rfl (fun _ hp => hp) (fun _ hp => hp)
+  · show List.take s.pos s.srvLog <+: List.take s.pos (s.srvLog ++ [f])
+    rw [e]; exact List.prefix_refl _
+  · show s.pos ≤ (s.srvLog ++ [f]).length
+    have := h.posLe
+    simp; omega
 
 /-- every step preserves the routing invariant -/
 theorem RouteInv.step {s s' : St} {ob : Obs} (h : RouteInv s) (e : Ev) (hs : Conn.step s e = some (s', ob)) :
@@ -463,11 +522,11 @@ theorem RouteInv.step {s s' : St} {ob : Obs} (h : RouteInv s) (e : Ev) (hs : Con
   | scrub id =>
     simp only [Conn.step] at hs
     split at hs <;> (simp only [Option.some.injEq, Prod.mk.injEq] at hs; rw [← hs.1])
-    · exact h.same rfl rfl rfl rfl
+    · exact h.same rfl rfl rfl rfl rfl rfl
     · exact h
   | dropRx c => exact h.dropRx c hs
   | dropHandles =>
-    simp only [Conn.step, Option.some.injEq, Prod.mk.injEq] at hs; rw [← hs.1]; exact h.same rfl rfl rfl rfl
+    simp only [Conn.step, Option.some.injEq, Prod.mk.injEq] at hs; rw [← hs.1]; exact h.same rfl rfl rfl rfl rfl rfl
   | drvScrub => exact h.drvScrub hs
   | drvOp b => exact h.drvOp b hs
   | drvOpClosed =>
@@ -484,20 +543,20 @@ theorem RouteInv.step {s s' : St} {ob : Obs} (h : RouteInv s) (e : Ev) (hs : Con
   | srvSend f =>
     simp only [Conn.step] at hs
     split at hs
-    · simp only [Option.some.injEq, Prod.mk.injEq] at hs; rw [← hs.1]; exact h.same rfl rfl rfl rfl
+    · simp only [Option.some.injEq, Prod.mk.injEq] at hs; rw [← hs.1]; exact h.srvSend f
     · cases hs
   | srvClose =>
     simp only [Conn.step] at hs
     split at hs
-    · simp only [Option.some.injEq, Prod.mk.injEq] at hs; rw [← hs.1]; exact h.same rfl rfl rfl rfl
+    · simp only [Option.some.injEq, Prod.mk.injEq] at hs; rw [← hs.1]; exact h.same rfl rfl rfl rfl rfl rfl
     · cases hs
   | srvGarbage =>
     simp only [Conn.step] at hs
     split at hs
-    · simp only [Option.some.injEq, Prod.mk.injEq] at hs; rw [← hs.1]; exact h.same rfl rfl rfl rfl
+    · simp only [Option.some.injEq, Prod.mk.injEq] at hs; rw [← hs.1]; exact h.same rfl rfl rfl rfl rfl rfl
     · cases hs
   | tick dt =>
-    simp only [Conn.step, Option.some.injEq, Prod.mk.injEq] at hs; rw [← hs.1]; exact h.same rfl rfl rfl rfl
+    simp only [Conn.step, Option.some.injEq, Prod.mk.injEq] at hs; rw [← hs.1]; exact h.same rfl rfl rfl rfl rfl rfl
 
 /-- the invariant holds in every state reachable by any event list -/
 theorem RouteInv.run (N : Nat) (evs : List Ev) : RouteInv (Conn.run (Conn.init N) evs) := by
